@@ -53,7 +53,7 @@ package eth
 // C08/C04: the logs of a transaction form a set keyed by log index: Add keeps
 // every log already present, in place, and appends the new one exactly when
 // no log with its index is present (whatever order the source delivers in).
-//@ func (*Logs).Add props=C08,C04,C01,C02,C12
+//@ func (*Logs).Add props=C08,C04,C01,C02,C12,C07
 //@   requires ls != nil && other != nil
 //@   ensures [kept] len(*ls) >= old(len(*ls)) && (forall k int :: 0 <= k && k < old(len(*ls)) ==> (*ls)[k].Idx == old((*ls)[k].Idx))
 //@   ensures [no-duplicate] (exists k int :: 0 <= k && k < old(len(*ls)) && old((*ls)[k].Idx) == old((*other).Idx)) ==> len(*ls) == old(len(*ls))
@@ -66,7 +66,7 @@ package eth
 // C08/C04: the transactions of a block form a set keyed by transaction index:
 // Tx returns the entry with that index, appending an empty one exactly when
 // none exists; entries already present keep their index and position.
-//@ func (*Block).Tx props=C08,C04,C01,C02
+//@ func (*Block).Tx props=C08,C04,C01,C02,C07
 //@   requires b != nil
 //@   ensures [returns-that-index] result != nil && (*result).Idx == idx
 //@   ensures [kept] len((*b).Txs) >= old(len((*b).Txs)) && (forall k int :: 0 <= k && k < old(len((*b).Txs)) ==> (*b).Txs[k].Idx == old((*b).Txs[k].Idx))
